@@ -437,11 +437,16 @@ def c17(run, tier):
 
 def c09(run, tier):
     import os
-    cfg = run.cfg("MC_Xml.cfg", {"MaxItems": Q(tier, 4, 4), "FullProduct": Q(tier, "FALSE", "TRUE")}, "gen.cfg")
-    trace = os.path.join(run.work, "xml.ndjson")
-    rep = run.tlc_gen_replay("MC_Xml", cfg, "documents", harness_args=["-out", trace], timeout=Q(tier, 600, 3600), heap=Q(tier, "8g", "24g"))
-    run.absorb(rep, ADAPTER_ASPECTS)
-    run.judge_trace(trace, "Trace_Store", "xml-trees", "C09.store", timeout=3000)
+    runs = [("documents", {"MaxItems": Q(tier, 3, 4), "FullProduct": "FALSE", "ItemPool": '"all"'}),
+            ("nesting", {"MaxItems": Q(tier, 4, 5), "FullProduct": "FALSE", "ItemPool": '"starts"'})]
+    if tier != "quick":
+        runs.append(("product", {"MaxItems": 3, "FullProduct": "TRUE", "ItemPool": '"all"'}))
+    for label, ov in runs:
+        cfg = run.cfg("MC_Xml.cfg", ov, "gen.%s.cfg" % label)
+        trace = os.path.join(run.work, "xml.%s.ndjson" % label)
+        rep = run.tlc_gen_replay("MC_Xml", cfg, label, harness_args=["-out", trace], timeout=Q(tier, 600, 3600), heap=Q(tier, "8g", "24g"))
+        run.absorb(rep, ADAPTER_ASPECTS)
+        run.judge_trace(trace, "Trace_Store", "xml-trees-" + label, "C09.store", timeout=3000)
 
 
 def c19(run, tier):
